@@ -60,6 +60,14 @@ func (s *store) GetTimestampOracle(ctx context.Context) (timestamp uint64, err e
 
 // Get implements storage.KvStorage interface
 func (s *store) Get(ctx context.Context, key []byte) (val []byte, err error) {
+	// skiplist is not concurrent-safe, reading must be exclusive with the batch and the iter
+	s.mu.Lock()
+	defer s.mu.Unlock()
+	return s.get(key)
+}
+
+// get reads without locking, the caller must hold the lock
+func (s *store) get(key []byte) (val []byte, err error) {
 	elem := s.skl.Get(key)
 	if elem == nil {
 		return nil, storage.ErrKeyNotFound
